@@ -774,22 +774,28 @@ def _corr_wrap(ctx, cases):
                        _line('wrap', case), nontrivial=_nontrivial(case, spos),
                        sample={'op': 'wrap', 'case': case, 'model_flags': mflags})
         pbc = case['pbc']
-        # exemptions (tolerance regime only): scaled coordinate within the bound of an integer
+        # exemptions (tolerance regime only): scaled coordinate within the bound of an integer.  The bound is 1e-9 (1 + |s_k|),
+        # or the derived one where that is larger (ill-conditioned cell and another coordinate of the atom far out: the
+        # error of s_k is 32 u kappa (1 + max_j |s_j|))
+        kapw = 0.0 if grid else _kappa(_fm(case['vects']))
+        smaxs = [max(abs(float(x)) for x in s) for s in spos]
         exempt = []
-        for s in spos:
+        for i, s in enumerate(spos):
             ex = set()
             if not grid:
                 for k in range(3):
-                    if pbc[k] and abs(float(s[k] - _nearint(s[k]))) <= TOL * (1 + abs(float(s[k]))):
+                    if pbc[k] and abs(float(s[k] - _nearint(s[k]))) <= max(TOL * (1 + abs(float(s[k]))), _es(kapw, smaxs[i])):
                         ex.add(k)
             exempt.append(ex)
         box_exempt = False
+        esall = 0.0 if grid else _es(kapw, max(smaxs))
         if not grid:
             for k in range(3):
                 if not pbc[k]:
                     mn = min(s[k] for s in spos)
                     mx = max(s[k] for s in spos)
-                    if abs(float(mn)) <= TOL * (1 + abs(float(mn))) or abs(float(mx) - 1) <= TOL * (1 + abs(float(mx))):
+                    if abs(float(mn)) <= max(TOL * (1 + abs(float(mn))), esall) \
+                            or abs(float(mx) - 1) <= max(TOL * (1 + abs(float(mx))), esall):
                         box_exempt = True
         ctx.extra['exempt_flags'] = ctx.extra.get('exempt_flags', 0) + sum(len(e) for e in exempt)
         ctx.extra['exempt_boxes'] = ctx.extra.get('exempt_boxes', 0) + int(box_exempt)
@@ -809,7 +815,9 @@ def _corr_wrap(ctx, cases):
             continue
         # positions (rebuilt with the OLD box): exempt atoms may differ by one old cell vector
         oldinv = _inv(_fm(case['vects']))
-        if not _compare_positions(case, 'wrap', ctx, system.atoms.view['pos'].tolist(), mpos, spos, exempt, oldinv, grid):
+        tolfw = TOL if grid else max(TOL, CS * U * kapw)
+        if not _compare_positions(case, 'wrap', ctx, system.atoms.view['pos'].tolist(), mpos, spos, exempt, oldinv, grid,
+                                  tolf=tolfw):
             continue
         # box
         if not box_exempt:
@@ -819,7 +827,10 @@ def _corr_wrap(ctx, cases):
                 okb = all(F(float(a)) == b for a, b in zip(ibox, mbox))
             else:
                 sc = max(abs(float(b)) for b in mbox)
-                okb = all(abs(float(a) - float(b)) <= TOL * sc for a, b in zip(ibox, mbox))
+                # (a lengthened vector is old vector x (max - min) of the scaled coordinates: their error times the vector)
+                tolb = max(TOL * sc, (4 * esall + 8 * U * (1 + max(smaxs))) * _normV(case['vects'])
+                           + 8 * U * max(abs(x) for x in case['origin']))
+                okb = all(abs(float(a) - float(b)) <= tolb for a, b in zip(ibox, mbox))
             if not okb:
                 ctx.disagree('wrap:box', f'wrap (pbc {pbc}): new box {[float(x) for x in ibox]}, model '
                              f'{[float(x) for x in mbox]}', replay)
